@@ -101,6 +101,11 @@ Theorem C09_complete_for_joiners : forall t removes updates adds t1 added me snd
   Complete t2 me pr.
 Proof. exact complete_join. Qed.
 
+Theorem C09_complete_after_an_own_update : forall t removes updates adds t1 added me pr,
+  tlen t + 2 * N.of_nat (length adds) < 2 ^ 25 ->
+  batch_edit t removes updates adds = TOk (t1, added) -> In me (map fst updates) -> Complete t1 me pr.
+Proof. exact complete_own_update. Qed.
+
 Theorem C09_nonblank_ancestor_is_never_filtered : forall t me jflt,
   shape_ok t -> wf5 t -> small t -> get t (2 * me) <> None -> filtered t me = Ok jflt ->
   forall i um, get t (lvl_node (N.of_nat (S i)) me) = Some (Par um) -> nth_error jflt i = Some false.
@@ -125,3 +130,4 @@ Print Assumptions C09_complete_for_receivers.
 Print Assumptions C09_complete_for_the_committer.
 Print Assumptions C09_complete_for_joiners.
 Print Assumptions C09_nonblank_ancestor_is_never_filtered.
+Print Assumptions C09_complete_after_an_own_update.
